@@ -395,6 +395,6 @@ Proof.
   intros H Hc. pose proof (congruence_ok_inv _ _ _ _ _ _ _ _ H) as Hi. cbv zeta in Hi. cbv zeta.
   set (r := ncols (hd [] As)) in *. set (C := cong_all Rops absv r _) in *. destruct Hi as (-> & ->).
   assert (Hn : nrows C = r) by apply nrows_cong_all.
-  destruct (Hc r C Hn) as (P & M). repeat split; auto.
-  now apply oracle_equals_brute_force.
+  destruct (Hc r C Hn) as (P & M).
+  split; [exact P|]. split; [reflexivity|]. split; [now apply oracle_equals_brute_force | exact M].
 Qed.
